@@ -525,6 +525,15 @@ def oracle(c, i):
     row_of = {v: r for r, v in enumerate(ids)}
     n = len(targets)
     prev_scores = None
+    if c["mode"] == 2 and not c.get("pre_names"):
+        # re-fit of a trained model: the labels of the first iteration come from the scores of the model as it was handed in
+        prev_scores = c["cols"][c["sc0"] + c["g0"]]
+        if not trace and res[0] == "err" and res[1] == "RuntimeError":
+            exp0 = spec_labels(prev_scores, targets, thr)
+            npos = sum(1 for v in exp0 if v == 1)
+            if npos:
+                return (f"re-fit of a trained model stopped before the first training iteration (RuntimeError) although {npos} targets "
+                        f"are accepted at train_fdr={c['thr']} under the scores of the model handed in")
     for k, call in enumerate(trace):
         seen = set()
         for rid, y in call:
